@@ -90,7 +90,7 @@ class IsolationError(Exception):
     pass
 
 
-def isolated(fn, *args, timeout=120):
+def isolated(fn, *args, timeout=300):
     """Run fn(*args) in a forked child and return its (picklable) result.  Every simulated run
     starts from the same pristine process state: whatever the code under test keeps in module
     globals (caches, counters, registries) cannot leak from one run, shrink candidate or replay
